@@ -233,8 +233,10 @@ impl Gen {
                         0 => 0,
                         1 => d.growth_left as u64,
                         2 => d.growth_left as u64 + 1,
-                        3 => cap + self.rng.below(3),
-                        4 => self.rng.below(4 * (cap + 1)),
+                        // relative to the current capacity, but bounded: repeated 4x requests would
+                        // otherwise compound into tables of 10^8 buckets
+                        3 => (cap + self.rng.below(3)).min(6000),
+                        4 => self.rng.below(4 * (cap + 1)).min(6000),
                         5 => u64::MAX - self.rng.below(3),
                         // at and above isize::MAX / size_of::<T>(): must report CapacityOverflow (requests
                         // that pass the layout checks but exceed physical memory are left to the
@@ -244,7 +246,7 @@ impl Gen {
                     };
                     format!("a try_reserve {}", n)
                 } else if x < 75 {
-                    format!("a reserve {}", self.rng.below(3 * (cap + 2)))
+                    format!("a reserve {}", self.rng.below(3 * (cap + 2)).min(6000))
                 } else if x < 88 {
                     let m = match self.rng.below(4) {
                         0 => 0,
@@ -351,7 +353,7 @@ impl Gen {
             let n = match self.rng.below(4) {
                 0 => self.rng.below(4),
                 1 => d.growth_left as u64 + self.rng.below(3),
-                2 => self.rng.below(4 * (d.items + d.growth_left + 1) as u64),
+                2 => self.rng.below(4 * (d.items + d.growth_left + 1) as u64).min(6000),
                 _ => self.rng.below(70),
             };
             format!("{} reserve {}", tgt, n)
